@@ -654,7 +654,7 @@ def classify_diff(d: dict) -> tuple[dict, list]:
     for k, (a, b) in d.items():
         attr = k.split(':', 1)[1]
         cls, _, name = attr.partition('.')
-        if a == ['<absent>']:
+        if a in (['<absent>'], ['<unset>']):
             kind = 'lazy attribute / new object (write-once)'
         elif attr.endswith(B_ATTRS) or (cls in IDENT_CLASSES and name == 'elements'):
             kind = 'xsi_types / selected_by / identity.elements'
@@ -759,10 +759,10 @@ def _run_history(ctx: Ctx, pi: int, pool: Pool, hist: list, drv: Optional[Driver
                              'the model accounts for xsi_types / selected_by / identity.elements, cache growth, write-once '
                              'lazy attributes and the clearable fields of the scratch context only')
             for k, (a, b) in dd.items():
-                if a == ['<absent>'] and k not in lazy_keys:
+                if a in (['<absent>'], ['<unset>']) and k not in lazy_keys:
                     lazy_keys[k] = len(lazy_keys)
                     steps.append(['m', lazy_keys[k]])
-            present = sorted(v for k, v in lazy_keys.items() if k in fp2)
+            present = sorted(v for k, v in lazy_keys.items() if k in fp2 and fp2[k] != ['<unset>'])
             fp = fp2
         else:
             present = None
